@@ -31,3 +31,31 @@ let run (id : string) (ops : string list) (out : out_channel) =
     Printf.fprintf out "%s\t%d\t%s\n" id i line) ops
 
 let registered = Registry.register "C02" run
+
+(* ---- extraction cross-check inside Coq (see c18.ml): for every read: op, the write-set
+   C02Model.writes_fixed predicts for that buffer, recomputed by vm_compute, must equal the one this
+   extracted runner computed (the other ops have constant predictions and call no model function). *)
+let coq_rop = function
+  | C02Model.RLayers -> "RLayers" | C02Model.RString -> "RString" | C02Model.RDump -> "RDump" | C02Model.RVerify -> "RVerify"
+let coq_loc = function
+  | C02Model.LBuf i -> "LBuf " ^ coq_nat i | C02Model.LSrc -> "LSrc" | C02Model.LDst -> "LDst"
+let to_coq (idx : int) (ops : string list) (out : out_channel) =
+  let bufs = ref [] and k = ref 0 in
+  Stdlib.List.iter (fun s ->
+    match split_on ':' s with
+    | ["pkt"; a] -> (match split_on ',' a with
+        | [_; h] -> bufs := !bufs @ [bytes_of_hex h]
+        | _ -> bufs := !bufs @ [[]])
+    | ["read"; a] -> (match split_on ',' a with
+        | [p; kind] ->
+          let b = Stdlib.List.nth !bufs (int_of_string p) and o = rop_of kind in
+          if Stdlib.List.length b <= 200 && !k < 3 then begin
+            let sh = { C02Model.buf = b; C02Model.hl = Datatypes.O; C02Model.src = []; C02Model.dst = [] } in
+            coq_example_named out (Printf.sprintf "sample_%d_%d" idx !k)
+              (Printf.sprintf "writes_fixed {| buf := %s; hl := 0%%nat; src := []; dst := [] |} %s" (coq_zlist b) (coq_rop o))
+              (coq_list (coq_pair coq_loc coq_z) (C02Model.writes_fixed sh o));
+            incr k
+          end
+        | _ -> ())
+    | _ -> ()) ops
+let registered_coq = Registry.register_coq "C02" ("From GP Require Import Base C02Model.\n", to_coq)
